@@ -3,11 +3,11 @@
 //! return exactly the reference rows (brute-force three-valued evaluation in expr.rs), and
 //! `count_rows` must equal the number of reference rows.
 use crate::expr::{self, Cell, Cmp, E};
-use crate::CLASS_PUSHDOWN;
+use crate::{CLASS_LIMIT0, CLASS_ORDER_UNPROJ, CLASS_PUSHDOWN};
 use arrow_array::*;
 use arrow_schema::{DataType, Field, Schema};
 use futures::TryStreamExt;
-use hxlib::util::{Args, Rng, Sink};
+use hxlib::util::{coq, Args, Rng, Sink, Stream};
 use lance::dataset::scanner::{ColumnOrdering, MaterializationStyle};
 use lance::dataset::{WriteMode, WriteParams};
 use lance::Dataset;
@@ -488,6 +488,17 @@ fn gen_query(rng: &mut Rng, t: &Table) -> (Query, bool) {
     } else {
         None
     };
+    if let Some((c, _, _)) = order {
+        // ORDER BY on a column that is not projected fails to plan (finding order_by_unprojected_column):
+        // kept rare so that ordered scans are actually exercised
+        if !rng.chance(1, 6) {
+            for j in [c, 0] {
+                if !proj.contains(&j) {
+                    proj.push(j);
+                }
+            }
+        }
+    }
     (Query { filter, filter_sql, proj, limit, offset, order }, oob)
 }
 
@@ -629,6 +640,9 @@ async fn corpus(sink: &mut Sink) {
 
 pub async fn run(args: &Args, sink: &mut Sink) {
     corpus(sink).await;
+    // number of rows returned under (limit, offset, filter?, order?) vs the model's scanner_limit
+    let mut s_lim = Stream::new("limit_window", crate::REQ, "chk_limit_window", "option N * option N * bool * bool * N", "N");
+    s_lim.shard = 3000;
     let mut rng = Rng::new(args.seed ^ 0xE2E16);
     let ntables = args.vol(6, 40);
     let nq = args.vol(14, 40);
@@ -646,8 +660,15 @@ pub async fn run(args: &Args, sink: &mut Sink) {
             for _ in 0..nknobs {
                 settings.push(gen_knobs(&mut rng));
             }
-            for k in settings {
+            for (ki, k) in settings.into_iter().enumerate() {
                 let got = run_query(&t.ds, &t.cols, &q, &k).await;
+                if let (Ok(g), true, false) = (&got, ki < 2, oob) {
+                    s_lim.push(
+                        coq::tuple(&[coq::opt(q.limit.map(|l| coq::n(l as u64))), coq::opt(q.offset.map(|l| coq::n(l as u64))), coq::b(q.filter.is_some()), coq::b(q.order.is_some()), coq::n(count as u64)]),
+                        coq::n(g.len() as u64),
+                        json!({"limit": q.limit, "offset": q.offset, "filter": q.filter_sql, "order_by": q.order.is_some(), "rows_matching": count, "rows_returned": g.len()}),
+                    );
+                }
                 let case = json!({"table": t.desc, "filter": q.filter_sql, "project": q.proj.iter().map(|j| t.cols[*j].name.clone()).collect::<Vec<_>>(),
                     "limit": q.limit, "offset": q.offset, "order_by": q.order.map(|(c, a, n)| json!({"column": t.cols[c].name, "ascending": a, "nulls_first": n})),
                     "knobs": format!("{k:?}"), "got": format!("{:?}", got.as_ref().map(|g| g.iter().take(12).collect::<Vec<_>>())), "want": format!("{:?}", want.iter().take(12).collect::<Vec<_>>()), "want_rows": want.len()});
@@ -660,13 +681,22 @@ pub async fn run(args: &Args, sink: &mut Sink) {
                     continue;
                 }
                 let ordered = k.in_order || q.order.is_some();
+                // known findings of the Scanner glue (reproduced, not repaired; see KNOWN_FINDINGS.txt)
+                let limit0 = q.limit == Some(0) && q.offset.is_none() && (q.filter.is_some() || q.order.is_some());
+                let order_unproj = q.order.map(|(c, _, _)| !q.proj.contains(&c) || (c != 0 && !q.proj.contains(&0))).unwrap_or(false);
                 match got {
                     Ok(mut g) => {
                         let mut w = want.clone();
                         if !ordered {
                             if q.limit.is_some() || q.offset.is_some() {
                                 // which rows an unordered scan keeps under LIMIT is not determined: only the size is
-                                if g.len() == w.len() { sink.oracle_ok() } else { sink.oracle_fail(None, "unordered scan with LIMIT/OFFSET returns a wrong number of rows", case) }
+                                if g.len() == w.len() {
+                                    sink.oracle_ok()
+                                } else if limit0 && g.len() == count {
+                                    sink.oracle_fail(Some(CLASS_LIMIT0), "LIMIT 0 with a filter or ORDER BY returns every matching row", case)
+                                } else {
+                                    sink.oracle_fail(None, "unordered scan with LIMIT/OFFSET returns a wrong number of rows", case)
+                                }
                                 continue;
                             }
                             g.sort();
@@ -674,21 +704,36 @@ pub async fn run(args: &Args, sink: &mut Sink) {
                         }
                         if g == w {
                             sink.oracle_ok();
+                        } else if limit0 && g.len() == count {
+                            sink.count("e2e/known/limit0");
+                            sink.oracle_fail(Some(CLASS_LIMIT0), "LIMIT 0 with a filter or ORDER BY returns every matching row", case);
                         } else {
                             sink.oracle_fail(None, "scan result differs from the reference evaluation of the query", case);
                         }
+                    }
+                    Err(e) if order_unproj && e.contains("TakeExec requires the input plan to have a column named") => {
+                        sink.count("e2e/known/order_by_unprojected");
+                        sink.oracle_fail(Some(CLASS_ORDER_UNPROJ), "ORDER BY on a column that is not projected fails to plan", case);
                     }
                     Err(e) => sink.oracle_fail(None, &format!("scan failed: {}", &e[..e.len().min(200)]), case),
                 }
             }
             // count_rows with the same filter = number of reference rows (no limit/offset)
             if !oob {
+                let c = t.ds.count_rows(q.filter_sql.clone()).await;
+                sink.count("e2e/count_rows");
+                match c {
+                    Ok(c) if c == count => sink.oracle_ok(),
+                    other => sink.oracle_fail(None, "Dataset::count_rows differs from the number of rows the reference query returns", json!({"table": t.desc, "filter": q.filter_sql, "got": format!("{other:?}"), "want": count})),
+                }
                 for use_index in [true, false] {
                     let mut sc = t.ds.scan();
                     if let Some(f) = &q.filter_sql {
                         sc.filter(f).unwrap();
                     }
                     sc.use_scalar_index(use_index);
+                    sc.project::<String>(&[]).unwrap();
+                    sc.with_row_id();
                     let c = sc.count_rows().await;
                     sink.count("e2e/count_rows");
                     match c {
@@ -699,5 +744,6 @@ pub async fn run(args: &Args, sink: &mut Sink) {
             }
         }
     }
+    sink.add(s_lim);
     sink.notes.push("e2e arm: float columns holding NaN are never compared with > or >=, float literals are non-zero and exactly representable; negations over indexed nullable columns are not generated (F1 belongs to C19)".into());
 }
